@@ -135,4 +135,120 @@ Proof.
   apply (NoDup_length_incl H1); [lia|exact H2].
 Qed.
 
+(* ------------------------------------------------------------------------------------------ *)
+(* COMPLETENESS: whenever some order of ns is accepted by is_topo, the executable oracle answers *)
+Lemma filter_not_ready : forall (p : nat -> bool) pend,
+  filter (fun n => negb (memn n (filter p pend))) pend = filter (fun n => negb (p n)) pend.
+Proof.
+  intros p pend. apply filter_ext_in. intros n Hn. f_equal.
+  destruct (p n) eqn:Ef.
+  - apply memn_In. apply filter_In. now split.
+  - apply memn_false. intro Hc. apply filter_In in Hc as [_ Hc]. congruence.
+Qed.
+
+Lemma first_pending : forall (P : nat -> bool) ord,
+  (exists n, In n ord /\ P n = true) ->
+  exists l1 b l2, ord = l1 ++ b :: l2 /\ P b = true /\ forall x, In x l1 -> P x = false.
+Proof.
+  intros P ord; induction ord as [|a r IH]; intros [n [Hn Hp]]; [destruct Hn|].
+  destruct (P a) eqn:Ea.
+  - exists [], a, r. split; [reflexivity|]. split; [assumption|]. intros x [].
+  - destruct Hn as [E|Hn]; [subst; congruence|].
+    destruct (IH (ex_intro _ n (conj Hn Hp))) as [l1 [b [l2 [E [Hb Hl]]]]].
+    exists (a :: l1), b, l2. split; [cbn [app]; now rewrite E|]. split; [assumption|].
+    intros x [Hx|Hx]; [now subst|now apply Hl].
+Qed.
+
+Lemma ntopo_complete : forall w ord, topo_scan w ord [] = true ->
+  forall fuel pending done,
+  (forall n, In n ord <-> In n pending \/ In n done) ->
+  length pending < fuel ->
+  ntopo w fuel pending done <> None.
+Proof.
+  intros w ord Hord fuel; induction fuel as [|f IH]; intros pending done Hiff Hlen; [lia|].
+  rewrite ntopo_step. destruct pending as [|p0 pr]; [discriminate|].
+  remember (p0 :: pr) as pend eqn:Ep. cbv zeta.
+  set (p := fun n => forallb (fun i => memn i done) (ins_of w n)).
+  destruct (first_pending (fun n => memn n pend) ord) as [l1 [b [l2 [E [Hb Hl]]]]].
+  { exists p0. split; [apply Hiff; left; rewrite Ep; now left|apply memn_In; rewrite Ep; now left]. }
+  assert (Hbr : In b (filter p pend)).
+  { apply filter_In. split; [now apply memn_In|]. unfold p. apply forallb_forall. intros i Hi.
+    apply memn_In.
+    destruct (topo_scan_spec _ _ _ Hord l1 b l2 E) as [_ [_ Hins]].
+    destruct (Hins i Hi) as [[]|Hi1].
+    assert (Hio : In i ord) by (rewrite E; apply in_or_app; now left).
+    apply Hiff in Hio as [Hio|Hio]; [|assumption].
+    apply memn_In in Hio. rewrite (Hl i Hi1) in Hio. discriminate. }
+  destruct (filter p pend) as [|r0 rr] eqn:Er; [destruct Hbr|].
+  rewrite <- Er. rewrite filter_not_ready. apply IH.
+  - intro n. rewrite Hiff. rewrite in_app_iff, <- in_rev, !filter_In.
+    split.
+    + intros [Hn|Hn]; [|right; now right].
+      destruct (p n) eqn:Epn; [right; left; now split|left; split; [assumption|reflexivity]].
+    + intros [[Hn _]|[[Hn _]|Hn]]; [now left|now left|now right].
+  - pose proof (filter_partition_length _ p pend) as Hp. rewrite Er in Hp. cbn [length] in Hp. unfold nid in *. lia.
+Qed.
+
+Theorem naive_topo_complete : forall w ns ord,
+  is_topo w ns ord = true -> naive_topo w ns <> None.
+Proof.
+  intros w ns ord Ht. destruct (topo_respects_inputs _ _ _ Ht) as [H1 [H2 _]].
+  unfold is_topo in Ht. apply andb_true_iff in Ht as [Ht Hs]. apply andb_true_iff in Ht as [Hl _].
+  apply Nat.eqb_eq in Hl.
+  unfold naive_topo. apply (ntopo_complete w ord Hs); [|lia].
+  intro n. split.
+  - intro Hn. left. now apply H2.
+  - intros [Hn|[]]. apply (@NoDup_length_incl _ ord ns H1); [lia|exact H2|exact Hn].
+Qed.
+
+(* the executable oracle DECIDES orderability of a duplicate-free node list: it answers None exactly
+   when no order is accepted by is_topo, and any answer it gives is accepted.  With it, model_init's
+   outcomes Cycle (oracle None) and Ok coincide with "no topological order exists" / "one exists";
+   BadOrder is unreachable. *)
+Theorem naive_topo_decides : forall w ns, NoDup ns ->
+  (naive_topo w ns = None <-> forall ord, is_topo w ns ord = false) /\
+  (forall order, naive_topo w ns = Some order -> is_topo w ns order = true).
+Proof.
+  intros w ns Hnd. split; [split|].
+  - intros Hn ord. destruct (is_topo w ns ord) eqn:E; [|reflexivity].
+    exfalso. exact (naive_topo_complete _ _ _ E Hn).
+  - intros Hall. destruct (naive_topo w ns) as [o|] eqn:E; [|reflexivity].
+    pose proof (Hall o) as Ho. rewrite (naive_topo_sound _ _ _ Hnd E) in Ho. discriminate.
+  - intros order. apply naive_topo_sound. exact Hnd.
+Qed.
+
+(* Model.__init__ with the executable oracle never ends in the BadOrder branch (an order the oracle
+   returned but the checker rejected): the rejections that remain are the documented ones *)
+Theorem model_init_naive_never_badorder : forall cf copy w ns vs, NoDup ns ->
+  snd (model_init cf naive_topo copy w ns vs) <> Err BadOrder.
+Proof.
+  intros cf copy w ns vs Hnd. unfold model_init.
+  destruct (has_dup (map (name_of w) ns)); [cbn; discriminate|].
+  destruct (has_dup (map (vname_of w) vs)); [cbn; discriminate|].
+  destruct (has_dup (map (gname_of w) (groups_of w ns vs))); [cbn; discriminate|].
+  destruct (negb copy && existsb (inmodel_of w) ns); [cbn; discriminate|].
+  destruct (naive_topo w ns) as [o|] eqn:E; [|cbn; discriminate].
+  rewrite (naive_topo_sound _ _ _ Hnd E). cbn. discriminate.
+Qed.
+
+
+Lemma is_topo_members : forall w ns ord, is_topo w ns ord = true -> forall n, In n ns -> In n ord.
+Proof.
+  intros w ns ord Ht n Hn. destruct (topo_respects_inputs _ _ _ Ht) as [H1 [H2 _]].
+  unfold is_topo in Ht. apply andb_true_iff in Ht as [Ht _]. apply andb_true_iff in Ht as [Hl _].
+  apply Nat.eqb_eq in Hl. apply (@NoDup_length_incl _ ord ns H1); [lia|exact H2|exact Hn].
+Qed.
+
+(* a closed chain of input edges through a node of ns: the oracle answers None (rejection Cycle) *)
+Theorem cycle_rejected_by_naive_topo : forall w ns a,
+  NoDup ns -> path w a a -> In a ns -> naive_topo w ns = None.
+Proof.
+  intros w ns a Hnd P Ha. apply (proj1 (naive_topo_decides w ns Hnd)).
+  intro ord. destruct (is_topo w ns ord) eqn:E; [|reflexivity].
+  pose proof (cycle_has_no_order w ns ord a P (is_topo_members _ _ _ E a Ha)) as C. congruence.
+Qed.
+
 Print Assumptions naive_topo_sound.
+Print Assumptions naive_topo_decides.
+Print Assumptions model_init_naive_never_badorder.
+Print Assumptions cycle_rejected_by_naive_topo.
